@@ -1,6 +1,7 @@
 package main
 
 import (
+	"go/token"
 	"fmt"
 	"go/types"
 	"strings"
@@ -856,7 +857,35 @@ func (fr *Frame) doSend(s *ssa.Send) {
 	fr.vc.abstracted("channel send (no effect on modelled state)")
 }
 
+// checkWaitObservesStop: in a function whose contract says
+// `attr waits-observe-stop <field>`, every blocking wait on channels must
+// include the channel held in that field (the one Close() closes) - a wait
+// that ignores it cannot be interrupted by Close (safety projection of
+// "Close releases everybody", property C16).
+func (fr *Frame) checkWaitObservesStop(chans []ssa.Value, what string) {
+	top := fr.topFrame()
+	if top.contract == nil || fr != top {
+		return
+	}
+	field, ok := top.contract.Attrs["waits-observe-stop"]
+	if !ok || field == "" {
+		return
+	}
+	for _, c := range chans {
+		if u, ok := c.(*ssa.UnOp); ok && u.Op == token.MUL {
+			if fa, ok := u.X.(*ssa.FieldAddr); ok {
+				if st := structOf(fa.X.Type().Underlying().(*types.Pointer).Elem()); st != nil && st.Field(fa.Field).Name() == field {
+					return
+				}
+			}
+		}
+	}
+	o := fr.oblige("wait", fr.ordName("wait/observes-"+field), "false")
+	o.Static = "fail:blocking " + what + " that does not listen on " + field + ": Close() cannot interrupt this wait"
+}
+
 func (fr *Frame) doRecv(i *ssa.UnOp, ch *Val) *Val {
+	fr.checkWaitObservesStop([]ssa.Value{i.X}, "receive")
 	fr.vc.abstracted("channel receive (value unconstrained)")
 	return fr.havocVal(i.Type(), "recv")
 }
